@@ -61,8 +61,8 @@ private:
   void execute() noexcept { this->execute_(this); }
 
   thread_unsafe_event_loop& loop_;
-  operation_base* next_;
-  operation_base** prevPtr_;
+  operation_base* next_ = nullptr;
+  operation_base** prevPtr_ = nullptr;
   execute_fn* execute_;
 
 protected:
